@@ -432,7 +432,11 @@ def one_case(rep, drv, contents, focus, ci, seed, case_dir, src_root, dst_root, 
         rep.disagree({"what": "model returned bad-op", "request": req[:400], **desc}); return None
     if focus == "C08":
         if not dry_twin(rep, drv, contents, desc, case_dir, src_root, dst_root, out_root, flags, cfg, env, order, exb, pre_src, pre_dst, pre_out): return None
-    rc, out, err = run_sy([src_root, dst_root, "--json"] + flags, case_dir, env_extra=env)
+    # every seventh case writes the roots with a trailing separator, as users do (`sy src/ dst/`): the scanner strips the root
+    # component-wise, so the outcome must be the same (the translated scanner compares path TEXTS: DESIGN §8, unit Scanner)
+    slash = "/" if ci % 7 == 3 and focus != "C08" else ""
+    if slash: rep.tag("roots.trailing-separator"); desc["roots"] = "trailing separator"
+    rc, out, err = run_sy([src_root + slash, dst_root + slash, "--json"] + flags, case_dir, env_extra=env)
     post_src = snapshot(src_root, contents); post_dst = snapshot(dst_root, contents); post_out = snapshot(out_root, contents)
     ev, bad = events_of(out)
     summ = next((e for e in ev if e.get("type") == "summary"), None)
